@@ -443,8 +443,11 @@ func cancel(action uint32, key string, payload []byte, want int32) func() {
 		vrt.Quiesce()
 		fx.Settle(w1, w2)
 		n := w.Root.Calls[key]
-		if n > 1 {
-			vrt.Failf("cancel-executes-again", "%s ran %d times after its call was cancelled", key, n)
+		// one call was issued: at most one method body may run, whatever
+		// arguments it ran with (a Cancel frame must never be decoded as a
+		// second call of the method)
+		if t := w.Root.Total(); n > 1 || t > 1 {
+			vrt.Failf("cancel-executes-again", "one call of %s, cancelled: %d method bodies ran: %v", key, t, w.Root.Order)
 		}
 		if returned == 1 && err == nil {
 			v, _ := fx.ReadInt32(res)
